@@ -134,6 +134,7 @@ Plan shrink_plan(const PropCfg &cfg, const Plan &plan, const std::string &prop, 
     try_world([](Plan &q) { q.w.k.zombie_gap = 0; });
     try_world([](Plan &q) { q.w.k.core_dumps = 0; });
     try_world([](Plan &q) { q.w.k.stall_num = 0; });
+    try_world([](Plan &q) { q.w.k.errno_clobber = 0; });
     try_world([](Plan &q) { q.w.k.clock_step_at_ms = -1; q.w.k.clock_step_ms = 0; });
     try_world([](Plan &q) { q.w.k.pipe_cap = 65536; });
     try_world([](Plan &q) { q.w.extra.clear(); });
